@@ -191,6 +191,10 @@ func main() {
 		workerMain(os.Args[2:])
 		return
 	}
+	if len(os.Args) >= 2 && os.Args[1] == "racework" {
+		raceWorkMain(os.Args[2:])
+		return
+	}
 	if len(os.Args) >= 2 && os.Args[1] == "extract" {
 		extractMain(os.Args[2:])
 		return
